@@ -69,6 +69,21 @@ META = {
                     'key transform NONE / explicit keys (letter casing is C08)'],
 }
 
+def coq_eval(ctx, exprs, imports, tag, shard=200):
+    """like ctx.coq, with a shard size that fits the output volume (the show_fn strings are
+    long: 200 of them in one vm_compute overflow the stack) and one retry (a shard can be
+    killed when the machine is overloaded)"""
+    import os, time
+    from lib import coqrun
+    jobs = 8 if ctx.tier == 'quick' else 14
+    try:
+        return coqrun.coq_eval(exprs, imports, os.path.join(ctx.workdir, tag), jobs=jobs, timeout=900, shard=shard)
+    except Exception:
+        time.sleep(3)
+        return coqrun.coq_eval(exprs, imports, os.path.join(ctx.workdir, tag + '_retry'), jobs=jobs, timeout=900,
+                               shard=shard)
+
+
 # =========================================================================== literals
 ALPHA_REPR = ["a", "'", '"', "\\", "\n", "\t", "\x00", "\x7f", "{", "\r", "x", "4", "é", "n"]
 ALPHA_LIT = ["a", "'", '"', "\\", "\n", "x", "4", "n", "é", "0", "N", "{", "\r", "t"]
@@ -122,8 +137,8 @@ def run_literals(ctx):
             ctx.violation('ast.literal_eval(repr(%r)) != the string' % s, {'kind': 'repr', 'string': s})
     dom = [s for s in reprs if model_domain(s)]
     try:
-        model = ctx.coq(['py_repr %s' % coq_str(s) for s in dom] + ['show_lit %s' % coq_str(t) for t in lits],
-                        ['GenPyLit'], tag='lits')
+        model = coq_eval(ctx, ['py_repr %s' % coq_str(s) for s in dom] + ['show_lit %s' % coq_str(t) for t in lits],
+                         ['GenPyLit'], 'lits')
     except Exception as e:
         ctx.broken_tie('literal model evaluation failed: %s' % str(e)[:400])
         return
@@ -518,7 +533,13 @@ def make_renaming(r, spec, flavor):
             if r.random() < 0.85 and pool:
                 R[k] = pool.pop()
     if flavor == 'types_same' and len(type_tokens) >= 2:
-        a, b = r.sample(type_tokens, 2)
+        # prefer two types of the same kind (two nested dataclasses, two enums)
+        by_kind = {}
+        for t in spec['types']:
+            if t['id'] != spec['root']:
+                by_kind.setdefault(t['kind'], []).append(t['name'])
+        groups = [g for g in by_kind.values() if len(g) >= 2]
+        a, b = r.sample(r.choice(groups), 2) if groups and r.random() < 0.8 else r.sample(type_tokens, 2)
         R[b] = R.get(a, a)
     return R
 
@@ -542,10 +563,13 @@ def rename_spec(spec, R):
     return rename_tree(spec, R)
 
 
-def same_named_types(spec):
+def same_named_types(spec, same_kind=False):
+    """{name: [ids]} of distinct types sharing one __name__ (optionally only of one kind:
+    the v1 helper/type-local name spaces are per kind)"""
     names = {}
     for t in spec['types']:
-        names.setdefault(t['name'], []).append(t['id'])
+        key = (t['name'], t['kind']) if same_kind else t['name']
+        names.setdefault(key, []).append(t['id'])
     return {n: ids for n, ids in names.items() if len(ids) > 1}
 
 
@@ -778,7 +802,7 @@ def p1_failures(res):
 def classify(ctx, spec, res, what):
     """region of a failing case -> finding id or None"""
     eng = spec['engine']
-    if same_named_types(spec) and (eng == 'v1' or spec['meta'].get('auto_tags')):
+    if same_named_types(spec, same_kind=True) and (eng == 'v1' or spec['meta'].get('auto_tags')):
         return 'F9-same-name-types'
     if eng == 'env' and env_unsafe_alias(spec):
         return 'F21-env-var-name-splice'
@@ -905,6 +929,8 @@ def run(ctx):
             continue
         ok_ops = sum(1 for o in base['ops'] if 'ok' in o)
         ctx.hist('base_ops', 'ok' if ok_ops else ('setup_error' if base.get('setup') else 'all_raise'))
+        for o in base['ops']:
+            ctx.hist('base_op_outcome', 'ok' if 'ok' in o else o['err'])
         for ri in [None] + list(range(len(rens))):
             sp, res = by_case[ci][ri]
             if 'runner_error' in res:
@@ -952,7 +978,7 @@ def run(ctx):
     # ---- correspondence: GenNames model vs Python's view of the generated source ----
     if exprs:
         try:
-            out = ctx.coq(exprs, ['GenNames'], tag='names')
+            out = coq_eval(ctx, exprs, ['GenNames'], 'names', shard=20)
         except Exception as e:
             ctx.broken_tie('GenNames model evaluation failed: %s' % str(e)[:500])
             out = None
